@@ -539,22 +539,27 @@ def check(prog, src, region, variant, normalised=False):
         if vio is None:
             continue
         # ---- facts for classification (from the original trace) --------
-        acc = ref.execs[vio.execution]["acc"] \
-            if vio.execution < len(ref.execs) else {}
+        # Undefined device data can only originate in a copyout array of
+        # which some element is, in SOME execution of the region on this
+        # input, read before the region wrote it or not written at all; the
+        # taint may travel in a scalar or another array to a later
+        # execution. So the facts are taken over all executions.
         culprits = []
         for name in clauses.get("copyout", []):
-            rec = acc.get(name)
-            if rec is None:
+            recs = [one["acc"][name] for one in ref.execs
+                    if name in one["acc"]]
+            if not recs:
                 continue
-            unwritten = len(rec["elems"]) - len(rec["written"])
-            if (unwritten > 0 or rec["read_unwritten"]) and \
+            unwritten = max(len(r["elems"]) - len(r["written"])
+                            for r in recs)
+            read_first = any(r["read_unwritten"] for r in recs)
+            if (unwritten > 0 or read_first) and \
                     static.get(name, "W") == "W":
                 culprits.append({"array": name, "clause": "copyout",
                                  "static_first_access": "W",
-                                 "elements": len(rec["elems"]),
+                                 "elements": len(recs[0]["elems"]),
                                  "unwritten_elements": unwritten,
-                                 "element_read_before_written":
-                                 rec["read_unwritten"]})
+                                 "element_read_before_written": read_first})
         facts = {"input": num + 1, "kind": vio.kind, "array": vio.array,
                  "clause_of_array": next(
                      (c for c in CLAUSES
